@@ -28,7 +28,16 @@ func appMsg(seq int, fields ...string) []byte {
 }
 
 // message pool: different lengths and types, values and tags that look like the end-of-message tag
+var c04PoolCache [][]byte
+
 func c04Pool() [][]byte {
+	if c04PoolCache == nil {
+		c04PoolCache = c04PoolBuild()
+	}
+	return c04PoolCache
+}
+
+func c04PoolBuild() [][]byte {
 	return [][]byte{
 		appMsg(1, "11=x"),
 		rawFrom("PEER", "SELF", "0", 2, "112=see 10=abc"),               // a value ending in "10=" + three bytes, right before a delimiter
@@ -44,6 +53,8 @@ func c04Pool() [][]byte {
 		// index 8, only used on a second connection: correctly framed, but without a MsgType - the handler cannot
 		// dispatch it and, by design, ends that connection with an error (which is not "connection closed")
 		frameFields([]fld{{"49", "PEER"}, {"56", "SELF"}, {"34", "9"}, {"58", "no type"}}),
+		// index 9, dedicated sequences only: one field of 70,000 bytes (longer than any fixed token or line limit of 64 KiB)
+		appMsg(10, "58="+strings.Repeat("z", 70000), "11=after-the-long-field"),
 	}
 }
 
@@ -76,6 +87,9 @@ type c04Case struct {
 	// OtherFirst: the second connection gets its bytes (and, if they end it, ends) one second before the first
 	// connection's bytes arrive
 	OtherFirst bool `json:"other_first,omitempty"`
+	// Trunc > 0: the peer's stream ends that many bytes before the end of its last message (then end of stream): the
+	// unfinished message is nobody's message
+	Trunc int `json:"trunc,omitempty"`
 }
 
 func streamOf(seq []int) ([]byte, [][]byte) {
@@ -236,6 +250,9 @@ func c04Inbound(c c04Case, obs *c04Obs) {
 		}
 	}
 	s1, m1 := streamOf(c.Seq)
+	if c.Trunc > 0 && c.Trunc < len(s1) {
+		s1 = s1[:len(s1)-c.Trunc]
+	}
 	conns := []*sconn{newConn(0)}
 	if c.Role == "ini" {
 		h := simplefixgo.NewInitiatorHandler(context.Background(), "35", c.Buf)
@@ -311,6 +328,9 @@ func c04CheckInbound(c c04Case, obs *c04Obs) (string, string) {
 		return "callbacks-overlap", ""
 	}
 	want := [][]int{c.Seq}
+	if c.Trunc > 0 {
+		want = [][]int{c.Seq[:len(c.Seq)-1]}
+	}
 	if len(c.Seq2) > 0 {
 		var w2 []int
 		for _, i := range c.Seq2 {
@@ -601,12 +621,12 @@ func idxOf(s []string, x string) int {
 }
 
 func c04Key(c c04Case) string {
-	return fmt.Sprintf("%s/%d/%v/%v/%v/%s/%d/%v/%v", c.Role, c.Buf, c.Seq, c.Seq2, c.Cuts, c.Mode, c.StallMs, c.OutFirst, c.OtherFirst)
+	return fmt.Sprintf("%s/%d/%v/%v/%v/%s/%d/%v/%v/%d", c.Role, c.Buf, c.Seq, c.Seq2, c.Cuts, c.Mode, c.StallMs, c.OutFirst, c.OtherFirst, c.Trunc)
 }
 
 func c04ScenarioOf(c c04Case, delay bool, bound int) *schedScenario {
 	var obs c04Obs
-	p := map[string]any{"role": c.Role, "buf": c.Buf, "seq": c.Seq, "seq2": c.Seq2, "cuts": c.Cuts, "mode": c.Mode, "stall_ms": c.StallMs, "out_first": c.OutFirst, "other_first": c.OtherFirst}
+	p := map[string]any{"role": c.Role, "buf": c.Buf, "seq": c.Seq, "seq2": c.Seq2, "cuts": c.Cuts, "mode": c.Mode, "stall_ms": c.StallMs, "out_first": c.OutFirst, "other_first": c.OtherFirst, "trunc": c.Trunc}
 	sc := &schedScenario{Name: "c04", Params: p, Strict: true, Delay: delay, Bound: bound, MaxSteps: 400000}
 	sc.Body = func() {
 		switch c.Mode {
@@ -668,7 +688,7 @@ func pints(p map[string]any, k string) []int {
 }
 
 func c04FromParams(name string, p map[string]any) *schedScenario {
-	c := c04Case{Role: pstr(p, "role"), Buf: pint(p, "buf"), Seq: pints(p, "seq"), Seq2: pints(p, "seq2"), Cuts: pints(p, "cuts"), Mode: pstr(p, "mode"), StallMs: pint(p, "stall_ms"), OutFirst: pbool(p, "out_first"), OtherFirst: pbool(p, "other_first")}
+	c := c04Case{Role: pstr(p, "role"), Buf: pint(p, "buf"), Seq: pints(p, "seq"), Seq2: pints(p, "seq2"), Cuts: pints(p, "cuts"), Mode: pstr(p, "mode"), StallMs: pint(p, "stall_ms"), OutFirst: pbool(p, "out_first"), OtherFirst: pbool(p, "other_first"), Trunc: pint(p, "trunc")}
 	return c04ScenarioOf(c, true, 0)
 }
 
@@ -791,6 +811,20 @@ func runC04(R *vlib.Out) {
 					if !runDefault(c04Case{Role: role, Buf: buf, Seq: seq, Cuts: []int{-1}, Mode: "inbound", StallMs: 300}) {
 						goto done
 					}
+					// the stream ends inside the last message, at every position of it (one read, and byte by byte)
+					if len(seq) <= 2 || thorough {
+						last := len(c04Pool()[seq[len(seq)-1]])
+						for tr := 1; tr < last; tr++ {
+							if (tr > 12 && tr < last-12) && !thorough && tr%7 != 0 {
+								continue // quick: every position near both ends of the message, every seventh in between
+							}
+							for _, cuts := range [][]int{nil, {-1}} {
+								if !runDefault(c04Case{Role: role, Buf: buf, Seq: seq, Cuts: cuts, Mode: "inbound", Trunc: tr}) {
+									goto done
+								}
+							}
+						}
+					}
 					// this side has written something itself; the peer then pauses for longer than the write deadline
 					// (5 s), between two messages and in the middle of one
 					if len(seq) <= 2 || thorough {
@@ -813,6 +847,14 @@ func runC04(R *vlib.Out) {
 							goto done
 						}
 					}
+				}
+			}
+		}
+		// a message with one very long field between two ordinary ones
+		for _, buf := range []int{0, 10} {
+			for _, cuts := range [][]int{nil, {-2}, {30000}, {65536, 65537}} {
+				if !runDefault(c04Case{Role: role, Buf: buf, Seq: []int{0, 9, 1}, Cuts: cuts, Mode: "inbound"}) {
+					goto done
 				}
 			}
 		}
@@ -858,6 +900,15 @@ func runC04(R *vlib.Out) {
 			}
 		}
 		scs = append(scs, c04Case{Role: "acc", Buf: 0, Seq: []int{0, 1}, Seq2: []int{2}, Cuts: nil, Mode: "inbound"})
+		// the stream ends inside the trailer of the last message: the end of the stream and whatever was read
+		// before it race through the reader, the forwarding loop and the handler
+		for _, role := range []string{"ini", "acc"} {
+			for _, buf := range []int{0, 1} {
+				for _, tr := range []int{1, 2, 4, 5} {
+					scs = append(scs, c04Case{Role: role, Buf: buf, Seq: []int{0, 1}, Cuts: nil, Mode: "inbound", Trunc: tr})
+				}
+			}
+		}
 		// the handler is stopped while a callback runs and messages are queued behind it
 		for _, role := range []string{"ini", "acc"} {
 			for _, buf := range []int{1, 10} {
